@@ -105,7 +105,7 @@ PROPS["C08"] = dict(
                 "usage comparison with symbolic rusage/limits (unit conversions proved wrap-free for sec<2^33, maxrss<2^53); SIGXCPU/SIGXFSZ delivery stops."),
     level_note=SYMEX_NOTE + "That the kernel enforces a limit it was given is outside (contract).",
     explanation="PrepareRLimit/getRlimit, Tracer.checkUsage, ptraceHandle.handle (signal stops), unshare.Run usage check executed symbolically; oracle in harness.",
-    bounds={"RLimits": "all 2^(7*64+1) records", "rusage": "sec < 2^33, usec < 10^6, maxrss < 2^53", "stop signals": "1..64 except SIGTRAP"},
+    bounds={'collector': 'caps 0..2, totals 0..6 bytes, all chunkings (delay bound 2); one bulk run of 3 MiB through a 64 KiB pipe', 'trace-loop measurements': '<=3 events of the main process with a symbolic usage record and symbolic bounds', 'refused limit': 'one prlimit64 failure (any errno) at either of 2 entries', "RLimits": "all 2^(7*64+1) records", "rusage": "sec < 2^33, usec < 10^6, maxrss < 2^53", "stop signals": "1..64 except SIGTRAP"},
     outside=["kernel enforcement of rlimits", "output volumes between 7 bytes and 3 MiB other than the one bulk run; time-based drain limits"],
     assumptions=[],
     harnesses=[
@@ -132,7 +132,7 @@ PROPS["C02"] = dict(
     level_note=SYMEX_NOTE + "Register accessors, GetString, getProcCwd/getProcFd, os.Lstat and PtracePeekData are stubs; the ABI table in the harness is written from the man pages. "
                "Resolve: absPath/absPathAt run against a symbolic forest and are compared with a reference implementation of the kernel's path walk. GetString runs against a tracee-memory model.",
     explanation="Handle/check*/absPath*/isOpenReadOnly/readOpenHowFlags executed symbolically; oracles: ABI table, kernel int-dirfd rule, open(2) flag semantics.",
-    bounds={"syscall number": "all values: the whole table plus 'unknown'", "dirfd register": "all 2^64 values x 15 *at syscalls", "open flags": "all 2^64 words for open/openat/openat2",
+    bounds={'final component': 'through Handle: 12 calls (follow / no-follow, flags 0) x 2 names x cwd / (quick); x 5 names x 3 cwds (thorough) on the symbolic forest', "syscall number": "all values: the whole table plus 'unknown'", "dirfd register": "all 2^64 values x 15 *at syscalls", "open flags": "all 2^64 words for open/openat/openat2",
             "file system": "ArgPositions/Dirfd/OpenFlags: no symbolic links; Resolve: symbolic forest of 6 nodes (/a,/a/b,/a/b/c,/d,/d/e,/f), each dir/file/link/absent, 10 link targets, 4 (quick) / 19 (thorough) query strings, cwd- / AT_FDCWD- / descriptor-relative"},
     outside=["flag-dependent final-component rule (AT_SYMLINK_NOFOLLOW / AT_SYMLINK_FOLLOW / O_NOFOLLOW: the harness drives those calls with flags 0)", "forests beyond the 6-node skeleton", "/proc alias grammar beyond what Handle exercises here", "TOCTOU between check and use"],
     assumptions=["tracee single-threaded (tid = tgid)"],
@@ -157,7 +157,7 @@ PROPS["C03"] = dict(
                 "allow => unmodified registers, same-signal re-injection, group kill and reaping before return."),
     level_note=SYMEX_NOTE + "K-PTRACE (stops, wait4, ESRCH on non-stopped tracees, TRACEFORK auto-attach) is a contract model of ptrace(2); that Linux honours it is outside.",
     explanation="trace()/handle()/handleTrap() run on symbolic event streams from the K-PTRACE model with a monitor; see harness zz_verif_c03.go.",
-    bounds={"events": "<=4 events quick (2 processes), <=6 events thorough (3 processes)", "verdict": "any 64-bit TraceAction", "schedules": "canceller goroutine interleavings, preemption bound 2"},
+    bounds={'handler verdicts': 'allow/ban/kill per named path x {open, unlink, rename, renameat2, linkat, unlisted call} x unsafe mode x any configured errno 1..133', "events": "<=4 events quick (2 processes), <=6 events thorough (3 processes)", "verdict": "any 64-bit TraceAction", "schedules": "canceller goroutine interleavings, preemption bound 2"},
     outside=["registers other than orig_rax / rax", "kernel ptrace semantics themselves"],
     assumptions=["K-PTRACE contract"],
     harnesses=[
@@ -203,7 +203,7 @@ PROPS["C04"] = dict(
                 "last privileged step, ids, session, cwd/host/domain, namespaces, clone-into-cgroup, fexecve, trace-me/stop/filter order, sync gate)."),
     level_note=SYMEX_NOTE + KERN_NOTE + "That Linux implements these calls as documented is outside.",
     explanation="Start/forkAndExecInChild/syncWithChild executed symbolically as two model processes; oracle = 15-line specification of the security state per option set.",
-    bounds={"options": "full cross product of {credential, drop-caps, no-new-privs, seccomp, ptrace, stop-before-seccomp, sync callback, late cgroup unshare, NoSetGroups} x all clone-flag words x "
+    bounds={'runner-level construction': 'filter of length 0 (nil or empty), 1, 2; sync callback present/absent; uid 0/1', 'refused id maps': 'one failure (any errno) at the open or write of uid_map/gid_map/setgroups', "options": "full cross product of {credential, drop-caps, no-new-privs, seccomp, ptrace, stop-before-seccomp, sync callback, late cgroup unshare, NoSetGroups} x all clone-flag words x "
                        "orthogonal options {groups, gid map, cgroup fd, exec fd, workdir, host/domain name, pivot root, ctty} all-off/all-on (quick+thorough); thorough: orthogonal options independent",
             "schedules": "parent/child interleaving fixed to run-until-block (preemption bound 0)", "faults": "none (see C07)"},
     outside=["option sets the kernel rejects for an unprivileged host (host is root here)", "mount list / rlimit list contents (C05/C08)", "real kernel behaviour"],
@@ -265,7 +265,7 @@ PROPS["C10"] = dict(
     level_note=SYMEX_NOTE + CT_NOTE,
     technique="bounded model checking of the real endpoints (symbolic data via z3, delay-bounded schedule enumeration)",
     explanation="container.{Ping,Open,Delete,Symlink,Reset,Execve,waitForDone,...} and containerServer.{serve,handle*,...} executed as threads over a model link.",
-    bounds={"history length": "1 operation + final Ping (quick); 2 operations (thorough)", "delay bound": "1 (quick) / 2 (thorough)", "transport loss": "at most one, at any send/receive",
+    bounds={'container init death': 'once, at any transport event around a Ping / Open / Execve', "history length": "1 operation + final Ping (quick); 2 operations (thorough)", "delay bound": "1 (quick) / 2 (thorough)", "transport loss": "at most one, at any send/receive",
             "Execve": "argv empty/non-empty, lookup fails, clone fails, child step fails, sync callback nil/ok/refusing, sync before/after exec, exec fails after sync, program ends with any status"},
     outside=["gob's real encoding (C19 models the stream abstractly)", "real timing of the ping deadline (the deadline may expire whenever it is armed while a program runs)"],
     assumptions=["C07 contract of forkexec.Start", "K-SOCK SEQPACKET contract"],
@@ -290,7 +290,7 @@ PROPS["C11"] = dict(
     level_note=SYMEX_NOTE + CT_NOTE + "Wall-clock promptness is read as 'without waiting for an event that may never happen'.",
     technique="bounded model checking of the real cancellation paths (delay-bounded schedule enumeration + symbolic status words)",
     explanation="unshare.Run, Tracer.trace, container.Execve with modelled wait4/kill/ptrace and a canceller thread.",
-    bounds={"delay bound": "2 (unshare, ptrace), 1 (container)", "program": "ends by itself with any wait status or runs until killed"},
+    bounds={'Destroy': 'before the call / free-running thread / injected at any transport event, around Ping, Open, Execve (sync callback, never-ending program)', 'launch race': 'real launcher + real tracer, context cancelled before the run or by a canceller thread, delay bound 2', "delay bound": "2 (unshare, ptrace), 1 (container)", "program": "ends by itself with any wait status or runs until killed"},
     outside=["Destroy while Build is still configuring the container", "wall-clock bounds (promptness is 'never waits for an event that may not happen')"],
     assumptions=["K-PTRACE, K-PROC contracts", "K-PROC: death of the pid-namespace init kills every process inside", "Go net: I/O on a connection closed by this process fails with net.ErrClosed and wakes blocked readers"],
     harnesses=[
@@ -316,7 +316,7 @@ PROPS["C12"] = dict(
     level_note=SYMEX_NOTE + CT_NOTE,
     technique="bounded model checking with descriptor/process/thread accounting",
     explanation="c12 harness over container host/init endpoints; C03 harness for the tracer.",
-    bounds={"history": "1 operation (quick), 2 (thorough)", "delay bound": "1"},
+    bounds={'Build': 'each later step (temporary root, work directory, configuration, transport) failing after the container was started', 'program shape': 'one or two processes', "history": "1 operation (quick), 2 (thorough)", "delay bound": "1"},
     outside=["real process trees that daemonise (kernel clause: SIGKILL to -1 / pid-ns teardown)", "startContainer itself (exec.Cmd, socket pair) and the descriptors it creates"],
     assumptions=["K-PROC: kill(-1,SIGKILL) in a pid namespace kills every process but init"],
     harnesses=[
@@ -340,7 +340,7 @@ PROPS["C14"] = dict(
                 "with the requested path (through the descriptor-passing link), close-on-exec, OpenFile never reached for a non-regular object, no leak/double close on either side, protocol in step."),
     level_note=SYMEX_NOTE + CT_NOTE + "Object kinds and outcomes are exploration choices/solver booleans of the file-system stubs.",
     explanation="handleOpen + host Open executed over the link model; stubs for os.Lstat/OpenFile/MkdirAll.",
-    bounds={"batch": "0..3 items", "object kinds": "8", "host defensive path": "arbitrary reply: 0..3 batch errors, 0..3 descriptors, optional error reply (no panic/double close)"},
+    bounds={'two batches': '2 items each, write-flags / permissions / MkdirAll symbolic per item (incl. zero values)', "batch": "0..3 items", "object kinds": "8", "host defensive path": "arbitrary reply: 0..3 batch errors, 0..3 descriptors, optional error reply (no panic/double close)"},
     outside=["object swapped between lstat and open", "intermediate-component symlinks", "descriptors attached to replies the real container never produces"],
     assumptions=[],
     harnesses=[
@@ -362,7 +362,7 @@ PROPS["C16"] = dict(
     level_note=SYMEX_NOTE + CT_NOTE + "The three kernel mechanisms (pdeathsig, pid-namespace teardown, EXITKILL) are clauses.",
     technique="bounded model checking with crash injection + symbolic execution of startContainer",
     explanation="containerServer endpoint under controller death at every host-visible step; startContainer with symbolic clone flags.",
-    bounds={"operation in flight": "Ping, Open, Execve (all start modes, sync before/after exec), idle", "delay bound": "1", "crash": "one per run"},
+    bounds={'launcher death': 'inside the sync callback; plain, user-namespace and ptrace+seccomp launches, delay bound 1', "operation in flight": "Ping, Open, Execve (all start modes, sync before/after exec), idle", "delay bound": "1", "crash": "one per run"},
     outside=["the kernel mechanisms themselves"],
     assumptions=["init is pid 1 of its pid namespace: its exit kills everything inside"],
     harnesses=[
@@ -381,7 +381,7 @@ PROPS["C17"] = dict(
     level_note=SYMEX_NOTE + CT_NOTE,
     technique="bounded model checking (delay-bounded interleavings) of concurrent calls on the real endpoints",
     explanation="two concurrent host calls over the link model; K-PTRACE monitor on wait4/kill targets.",
-    bounds={"threads": "2 callers at delay bound 2, 3 callers at delay bound 1 (quick) / 2 (thorough); not 16", "delay bound": "see threads"},
+    bounds={'other pairs': 'Ping or Open/Delete/Symlink/Reset during a run (delay bound 1); fork vs a descriptor creator under ForkLock.RLock (delay bound 2)', "threads": "2 callers at delay bound 2, 3 callers at delay bound 1 (quick) / 2 (thorough); not 16", "delay bound": "see threads"},
     outside=["4+-way interactions, OS-thread scheduling, plain-memory data races", "descriptor creators that bypass ForkLock"],
     assumptions=[],
     harnesses=[
@@ -405,7 +405,7 @@ PROPS["C13"] = dict(
                 "failure => descriptor closed exactly once, no file returned."),
     level_note=SYMEX_NOTE + "RemoveAll contract: removes the named subtree whatever its kind or mode, or fails. Kernel seal semantics are a clause. fexecve via execveat(AT_EMPTY_PATH) is checked in C04/C06.",
     explanation="handleReset + removeContents + DupToMemfd/New with file-system and memfd stubs.",
-    bounds={"mount table": "<=3 entries, fs type in {tmpfs, bind, proc}", "leftovers": "<=2 per target", "memfd content": "3 symbolic bytes read in 2-byte chunks", "faults": "one per step"},
+    bounds={'memfd reader': 'plain io.Reader or *os.File positioned at 0..3 of 3 bytes', 'leftover kinds': 'regular entry or dangling symbolic link', "mount table": "<=3 entries, fs type in {tmpfs, bind, proc}", "leftovers": "<=2 per target", "memfd content": "3 symbolic bytes read in 2-byte chunks", "faults": "one per step"},
     outside=["writable bind mounts are by design not reset", "kernel seal semantics", "real directory trees (RemoveAll contract)"],
     assumptions=["os.RemoveAll contract"],
     harnesses=[
@@ -422,7 +422,7 @@ PROPS["C19"] = dict(
                 "messages from a hostile peer; the framed layer rejects an encoded length (64-bit symbolic, classes around the 32 KiB cap) above the cap before anything is sent."),
     level_note=SYMEX_NOTE + "The cmsg codecs of package syscall (unsafe reinterpretation) are replaced by a codec with the real CmsgSpace sizes; gob is replaced by a length stub. Linux merges all SCM_RIGHTS of one sendmsg into one message (assumed).",
     explanation="(*Socket).SendMsg/RecvMsg/parseMsg/closeRights and container.(*socket).SendMsg executed symbolically over the socket model.",
-    bounds={"payload / buffer": "0..5 bytes each (relative order is what matters)", "rights": "0..3", "control buffer": "4096 or 24/32/40 bytes", "hostile peer": "<=2 control messages of kind rights/cred/foreign",
+    bounds={'receiver': 'SO_PASSCRED on/off (kernel-supplied credentials, credentials delivered before rights)', 'constructors': 'socketpair, wrap, duplicate: each step failing', 'framed sequences': '3 messages, each send failing in the transport / oversized / fine', "payload / buffer": "0..5 bytes each (relative order is what matters)", "rights": "0..3", "control buffer": "4096 or 24/32/40 bytes", "hostile peer": "<=2 control messages of kind rights/cred/foreign",
             "framed length": "any 0..40000 (classes 0, small, cap-1, cap, cap+1, large)"},
     outside=["gob's real encoding (the stream is an abstract model: type description once, values after it)", "net.FileConn / os.NewFile internals (stubs with the documented ownership rules)"],
     assumptions=["K-SOCK SEQPACKET contract incl. MSG_CMSG_CLOEXEC"],
@@ -445,7 +445,7 @@ PROPS["C20"] = dict(
                 "extra fields and missing files (value*1000 ns / bytes / count or an error, never a wrong number); AddProc/SetMemoryLimit/SetProcLimit write the decimal value to the group's own file."),
     level_note=SYMEX_NOTE + "That writing a pid moves the process is the kernel's part (outside).",
     explanation="cgroup.New/newV1/newV2/V2.New/Random/Destroy/EnsureDirExists/randomBuild/readers/writers over the cgfs model.",
-    bounds={"creators": "2 concurrent (delay bound 2)", "numerals": "1..3 symbolic decimal digits + 3 malformed variants", "written values": "all values < 100 symbolic, 4 large representatives",
+    bounds={'sub-groups': '2 concurrent creators through one parent handle (v1 and v2); limits through a handle on a pre-existing group', "creators": "2 concurrent (delay bound 2)", "numerals": "1..3 symbolic decimal digits + 3 malformed variants", "written values": "all values < 100 symbolic, 4 large representatives",
             "random source": "values {1,2} for the first 4 draws"},
     outside=["v1 readers (same ReadUint code path)", "Nest/OpenExisting/cpuset initialisation", "kernel behaviour of cgroup files"],
     assumptions=["K-FS: mkdir is atomic; a new cgroup directory is populated with its control files"],
@@ -470,7 +470,7 @@ PROPS["C05"] = dict(
                 "is a fresh tmpfs remounted read-only, the old root is detached and removed, nothing but the configured mount points is created, masked paths are covered."),
     level_note=SYMEX_NOTE + KERN_NOTE + "K-MNT clauses (bind ignores RDONLY; remount|bind replaces per-mount flags and must keep locked ones; fs mounts honour RDONLY) are the contract; that Linux implements them is outside.",
     explanation="mount section of forkAndExecInChild, mount.Builder, Mount.ToSyscall/pathPrefix, container.initFileSystem, Mount.Mount, maskPath executed symbolically.",
-    bounds={"mount table": "4 entries (one filtered), nested target depth 2-3", "statfs flags": "all 2^64 words", "masked object": "file / directory / absent"},
+    bounds={'hand-built bind entry': 'any flag word over {BIND,RDONLY,NOSUID,NODEV,NOEXEC,PRIVATE,REC,NOATIME} with BIND set', "mount table": "4 entries (one filtered), nested target depth 2-3", "statfs flags": "all 2^64 words", "masked object": "file / directory / absent"},
     outside=["reachability through /proc magic links and kernel escapes", "nosuid/nodev of writable bind mounts (kernel ignores them without remount)"],
     assumptions=["K-MNT contract"],
     harnesses=[
